@@ -4,7 +4,8 @@
    authoritative metadata (any durations incl. 0 = infinite and negative, any group set —
    truncated, deleted, prunable, duplicate names/IDs —, snapshot possibly stale), every
    local shard list and every failure oracle. *)
-From Verif Require Import C17.Model C17.Spec C17.Proofs C17.ProofsComplete C17.ProofsHist.
+From Verif Require Import C17.Model C17.Spec C17.Proofs C17.ProofsComplete C17.ProofsHist C17.ProofsRetry.
+From Verif Require Import C17.Store C17.StoreProofs C17.StoreLink C17.StoreSpec.
 From VerifGen Require Import Consts.
 Open Scope Z_scope.
 
@@ -144,10 +145,149 @@ Theorem dropped_iff_too_old :
 Proof. exact dropped_iff_lemma. Qed.
 Print Assumptions dropped_iff_too_old.
 
+(* ---------- several passes: a failed local delete is retried ---------- *)
+
+(* the link for what Run.v evaluates per tick (spec_ok and retry_ok) *)
+Theorem tick_ok_for_all_inputs : forall i : input, tick_ok i (pass i) = true.
+Proof. exact tick_ok_model. Qed.
+Print Assumptions tick_ok_for_all_inputs.
+
+(* failed_delete_is_retried: after ANY history (passes of any node with arbitrary failure
+   oracles — in particular passes in which DeleteShard of this very shard failed — and
+   arbitrary environment changes) the next pass of node n calls DeleteShard for every shard
+   that is on n and belongs to a group the metadata marks deleted.  The service carries no
+   memory from pass to pass: the state of a history is the cluster state alone. *)
+Theorem failed_delete_is_retried :
+  forall (c : cluster) (h : list step) (n : N) (now tdel tprune : Z) (orc : list fault) (id : N) (e : entry),
+  let c' := run c h in
+  In id (get_node n (c_nodes c')) -> In e (entries (c_meta c')) -> e_deleted e = true -> holds e id = true ->
+  exists ok, In (CDelShard id ok) (r_calls (pass (node_input c' n now tdel tprune orc))).
+Proof. exact history_retries. Qed.
+Print Assumptions failed_delete_is_retried.
+
+(* ... and when that pass runs without injected failures the shard is gone afterwards *)
+Theorem clean_retry_removes_the_shard :
+  forall (i : input) (id : N) (e : entry),
+  forallb is_fok (i_orc i) = true ->
+  In e (entries (i_snap i)) -> e_deleted e = true -> holds e id = true -> ~ In id (r_local (pass i)).
+Proof. exact clean_retry_removes. Qed.
+Print Assumptions clean_retry_removes_the_shard.
+
+(* ---------- Store.DeleteShard: what removing the shard does to the rest ---------- *)
+(* [st] ranges over EVERY abstract store (any shard list — duplicate ids, several databases and
+   retention policies, both index types —, any series-file and shared-index content, healthy
+   or not), [id] over every shard id, [sh] is the shard DeleteShard finds. *)
+
+(* delete_keeps_held_series: no series that ANY remaining shard of the database (whatever its
+   retention policy) still holds is removed from the series file or from the shared inmem
+   index *)
+Theorem delete_keeps_held_series :
+  forall (st : store) (id : N) (sh o : sshard) (k : skey),
+  find_shard st id = Some sh ->
+  In o (st_shards st) -> ss_id o <> id -> In k (keys o) ->
+  (In k (lookup (ss_db o) (st_sfile st)) -> In k (lookup (ss_db o) (st_sfile (snd (delete_shard st id))))) /\
+  (In k (lookup (ss_db o) (st_inmem st)) -> In k (lookup (ss_db o) (st_inmem (snd (delete_shard st id))))).
+Proof.
+  intros st id sh o k Hf Ho Hid Hk. split.
+  - exact (delete_keeps_sfile st id sh Hf o k Ho Hid Hk).
+  - exact (delete_keeps_inmem st id sh Hf o k Ho Hid Hk).
+Qed.
+Print Assumptions delete_keeps_held_series.
+
+(* delete_reads_unchanged: the remaining shards are exactly the shards with another id,
+   every read of each of them (series and points) is what it was, and the series listing of
+   every database is exactly what its remaining shards (others_of = other id, same database,
+   any retention policy) read before *)
+Theorem delete_reads_unchanged :
+  forall (st : store) (id : N) (sh : sshard),
+  find_shard st id = Some sh ->
+  (forall o, In o (st_shards (snd (delete_shard st id))) <-> In o (st_shards st) /\ ss_id o <> id) /\
+  (forall o, In o (st_shards st) -> ss_id o <> id ->
+             read_shard (snd (delete_shard st id)) o = read_shard st o) /\
+  (forall db, vis_keys (snd (delete_shard st id)) db =
+              flat_map (fun s => map fst (read_shard st s)) (others_of st id db)).
+Proof.
+  intros st id sh Hf. split; [|split].
+  - exact (delete_remaining st id sh Hf).
+  - exact (delete_read st id sh Hf).
+  - intros db. exact (delete_listing st id sh db Hf).
+Qed.
+Print Assumptions delete_reads_unchanged.
+
+(* delete_shard_exact: the series file of every database afterwards = before, minus exactly
+   the series of the deleted shard that no remaining shard of the SAME database holds (so:
+   series held only by the deleted shard are removed; other databases are untouched); an
+   unknown shard id changes nothing *)
+Theorem delete_shard_exact :
+  (forall (st : store) (id : N) (sh : sshard),
+   find_shard st id = Some sh -> forall (db : N) (k : skey),
+   (In k (lookup db (st_sfile (snd (delete_shard st id)))) <->
+    In k (lookup db (st_sfile st)) /\
+    ~ (db = ss_db sh /\ In k (keys sh) /\
+       forall o, In o (st_shards st) -> ss_id o <> id -> ss_db o = db -> ~ In k (keys o)))) /\
+  (forall (st : store) (id : N), find_shard st id = None -> delete_shard st id = (DNotFound, st)).
+Proof. split; [exact delete_exact | exact delete_not_found]. Qed.
+Print Assumptions delete_shard_exact.
+
+(* reachable stores: the invariant [healthy] (one shard per id; every series of every shard is
+   live in its database's series file and, for inmem shards, in the shared index; the shared
+   index in use lists no series that no shard of the database holds) holds for every store the
+   harness builds and is preserved by DeleteShard, WriteToShard and close+reopen.  The last
+   clause is the one the code violated before "fix: DeleteShard left series in the shared
+   inmem index of a database with mixed index types". *)
+Theorem store_invariant :
+  (forall shs, valid_shards shs = true -> healthy (init_store shs)) /\
+  (forall st o, healthy st -> healthy (snd (apply_op st o))).
+Proof. split; [exact init_healthy | exact apply_healthy]. Qed.
+Print Assumptions store_invariant.
+
+(* the link for the store cases: on every healthy store and for every operation the model's
+   observation satisfies the executable specification (remaining shards read as before, series
+   file minus exactly the exclusively-held series, listings = the series readable from the
+   remaining shards); hence for every valid description and every operation sequence *)
+Theorem store_spec_ok_for_all :
+  (forall dbs st, healthy st -> forall o,
+     step_spec (obs_of dbs st) o (fst (apply_op st o)) (obs_of dbs (snd (apply_op st o))) = true) /\
+  (forall dbs shs ops, valid_shards shs = true ->
+     steps_spec (obs_of dbs (init_store shs)) (run_ops dbs (init_store shs) ops) = true).
+Proof. split; [exact link_step | exact store_spec_ok_model]. Qed.
+Print Assumptions store_spec_ok_for_all.
+
 (* ---------- non-vacuity ---------- *)
 
 Definition ex_now : Z := 1790000000000000000.
 Definition ex_hour : Z := 3600000000000.
+
+(* the shape of seeded C17-4: series (0,0) in a shard of policy 0 and in a shard of policy 1 of
+   database 0; deleting the first keeps it everywhere; series (1,1) only the deleted shard
+   holds goes, also from the listings; database 1 is untouched *)
+Definition ex_shards : list sshard :=
+  [ mkSS 1 0 0 false [((0, 0), [(10%Z, 1%Z)]); ((1, 1), [(10%Z, 1%Z)])]
+  ; mkSS 2 0 1 true [((0, 0), [(20%Z, 2%Z)])]
+  ; mkSS 3 1 0 false [((1, 1), [(30%Z, 3%Z)])] ]%N.
+Example store_nonvacuous :
+  valid_shards ex_shards = true /\
+  find_shard (init_store ex_shards) 1%N = Some (mkSS 1 0 0 false [((0, 0), [(10%Z, 1%Z)]); ((1, 1), [(10%Z, 1%Z)])])%N /\
+  (let st' := snd (delete_shard (init_store ex_shards) 1%N) in
+   kmem (0, 0)%N (lookup 0%N (st_sfile st')) = true /\ kmem (1, 1)%N (lookup 0%N (st_sfile st')) = false /\
+   kmem (1, 1)%N (lookup 1%N (st_sfile st')) = true /\
+   nmem 1%N (d_names (db_obs st' 0%N)) = false /\ nmem 0%N (d_names (db_obs st' 0%N)) = true /\
+   read_shard st' (mkSS 2 0 1 true [((0, 0), [(20%Z, 2%Z)])])%N = [((0, 0)%N, [(20%Z, 2%Z)])]) /\
+  steps_spec (obs_of [0; 1]%N (init_store ex_shards))
+             (run_ops [0; 1]%N (init_store ex_shards) [ODel 1; OWrite 2 (1, 1) [(40%Z, 4%Z)]; OReopen; ODel 9; ODel 2]%N) = true.
+Proof. vm_compute. repeat split; reflexivity. Qed.
+
+(* a history in which DeleteShard(7) fails twice and then succeeds *)
+Example retry_nonvacuous :
+  let m := [mkDb 0 [mkPolicy 0 ex_hour ex_hour
+              [mkGroup 1 (ex_now - 5 * ex_hour) (ex_now - 4 * ex_hour) (Some (ex_now - 60)) None [mkShard 7 []]]]] in
+  let c := mkCl m [(1%N, [7%N])] in
+  r_calls (pass (node_input (run c [SPass 1 ex_now ex_now ex_now [FErr]]) 1 ex_now ex_now ex_now [FErr]))
+    = [CDelShard 7 false; CPrune true] /\
+  r_local (pass (node_input (run c [SPass 1 ex_now ex_now ex_now [FErr]; SPass 1 ex_now ex_now ex_now [FErr]]) 1 ex_now ex_now ex_now []))
+    = [].
+Proof. vm_compute. auto. Qed.
+
 Definition ex_meta : meta :=
   [mkDb 0 [mkPolicy 0 ex_hour ex_hour
      [ mkGroup 1 (ex_now - 3 * ex_hour) (ex_now - 2 * ex_hour) None None [mkShard 2 [1%N]; mkShard 3 [2%N]]
